@@ -41,11 +41,22 @@ GridTs(st, i) ==
   IN Local(y, mo, d, t[1], t[2], t[3], frac, IF kind = 2 THEN off ELSE 0, kind # 0, prec)
 
 TsVal(ts) == Val("timestamp", <<>>, ts)
+\* the corners of the year range, always generated: local year 1 / 9999 with an offset that carries the UTC fields
+\* into year 0 / 10000 (valid: the range applies to the local fields), and the mirror cases that stay inside
+CornerOffs == <<1, 59, 60, 1439>>
+Corners == FlattenSeq(FlattenSeq([o \in 1..Len(CornerOffs) |-> [p3 \in 1..3 |-> LET prec == p3 + 3 IN
+             << Local(1, 1, 1, 0, 0, 0, <<5>>, CornerOffs[o], TRUE, prec),
+                Local(9999, 12, 31, 23, 59, 59, <<9, 9, 9>>, 0 - CornerOffs[o], TRUE, prec),
+                Local(1, 1, 1, 0, 0, 0, <<0>>, 0 - CornerOffs[o], TRUE, prec),
+                Local(9999, 12, 31, 23, 59, 59, <<1>>, CornerOffs[o], TRUE, prec) >>]]))
+NC == Len(Corners)
 Cases == [i \in 1..Len(Streams) |->
             LET ts == GridTs(Streams[i].s, 1)
             IN [ts |-> ts, spelling |-> SpellTimestamp(ts, Streams[i].s, 20)]]
+         \o [i \in 1..NC |-> [ts |-> Corners[i], spelling |-> SpellTimestamp(Corners[i], Streams[(i % Len(Streams)) + 1].s, 20)]]
 Forests == [i \in 1..(Len(Streams) \div 4) |->
               [kind |-> "timestamps", forest |-> [k \in 1..4 |-> TsVal(GridTs(Streams[4 * i - 4 + k].s, 1))]]]
+           \o [i \in 1..(NC \div 4) |-> [kind |-> "timestamp-corners", forest |-> [k \in 1..4 |-> TsVal(Corners[4 * i - 4 + k])]]]
 
 \* literals that must be rejected
 T(str) == str
